@@ -1,5 +1,7 @@
 pub mod common;
 pub mod c02;
+pub mod c05;
+pub mod c07;
 pub mod c08;
 pub mod c13;
 
@@ -24,6 +26,8 @@ macro_rules! dispatch {
 
 dispatch! {
     "C02" => c02,
+    "C05" => c05,
+    "C07" => c07,
     "C08" => c08,
     "C13" => c13,
 }
